@@ -57,10 +57,11 @@ var JBoundary = []*uint256.Int{
 	pow2(64, -33), pow2(64, -32), pow2(64, -1), pow2(64, 0), pow2(255, 0), pow2(256, -1),
 }
 
-// JBoundaryQuick is the 10-element sub-alphabet used by quick tiers.
+// JBoundaryQuick is the 11-element sub-alphabet used by quick tiers (2^64-1 and 2^64-32 make uint64 sums with the
+// small values wrap).
 var JBoundaryQuick = []*uint256.Int{
 	uint256.NewInt(0), uint256.NewInt(1), uint256.NewInt(31), uint256.NewInt(32), uint256.NewInt(33),
-	uint256.NewInt(1 << 40), pow2(63, 0), pow2(64, -32), pow2(64, 0), pow2(256, -1),
+	uint256.NewInt(1 << 40), pow2(63, 0), pow2(64, -32), pow2(64, -1), pow2(64, 0), pow2(256, -1),
 }
 
 // Type ids used by the journal case languages.
